@@ -19,6 +19,7 @@ from cherab.core.atomic import (AtomicData, Line, deuterium, hydrogen, carbon, h
                                 BeamPopulationRate, BeamEmissionPEC, TotalRadiatedPower as TRPRate,
                                 LineRadiationPower, ContinuumPower, CXRadiationPower)
 from cherab.core.atomic.gaunt import MaxwellianFreeFreeGauntFactor
+from cherab.core.atomic import FreeFreeGauntFactor
 from cherab.core.model import (ExcitationLine, RecombinationLine, ThermalCXLine, Bremsstrahlung, TotalRadiatedPower,
                                BeamCXLine, BeamEmissionLine, SingleRayAttenuator)
 from cherab.core.model.laser import (SeldenMatobaThomsonSpectrum, UniformEnergyDensity, ConstantBivariateGaussian,
@@ -88,6 +89,17 @@ class _CCxr(CXRadiationPower):
     def evaluate(self, ne, te): return self.v
 
 
+class _ScaledGaunt(FreeFreeGauntFactor):
+    """provider-specific Gaunt factor, so that a stale one is visible in the spectrum"""
+
+    def __init__(self, scale):
+        self.base = MaxwellianFreeFreeGauntFactor()
+        self.scale = scale
+
+    def evaluate(self, z, temperature, wavelength):
+        return self.scale * self.base.evaluate(z, temperature, wavelength)
+
+
 class MockData(AtomicData):
     """constant rates whose values depend on (provider tag, accessor, arguments): using data of the wrong provider,
     species or transition changes every number.  Counts accessor calls (cache refills are visible without hooks)."""
@@ -138,7 +150,7 @@ class MockData(AtomicData):
 
     def free_free_gaunt_factor(self):
         self._k('gaunt')
-        return MaxwellianFreeFreeGauntFactor()
+        return _ScaledGaunt(1.0 if self.tag == 'A' else 1.3)
 
 
 # ---- plain-data helpers -------------------------------------------------------------------------------------------
